@@ -8,6 +8,7 @@
 package main
 
 import (
+	"encoding/hex"
 	"encoding/json"
 	"errors"
 	"flag"
@@ -1347,6 +1348,18 @@ func (r *runner) exec(o Op) {
 		preBoth := spec(append(append([]call(nil), r.acked...), r.calls...))
 		preDisk, _ := r.real.observe(r.real.db, false)
 		preKnown := r.real.knownBatches()
+		// the bytes the model says this flush appends: its pending records under its nextBatchSeqNum
+		// (DeleteWALEntries' merge position, SetWALEntry's drop, encodeBatch; compared below)
+		mPending, mSeq := "", ""
+		preEnds := map[uint64]int{}
+		if !wasClosed {
+			mPending, mSeq = r.ask("pending"), r.ask("nextseq")
+			for num, fr := range r.real.files {
+				if fr.cur {
+					preEnds[num] = len(fr.ends)
+				}
+			}
+		}
 		watch := every || r.rng.Intn(6) == 0
 		r.hooked = nil
 		inj := r.newInjector(o, bs)
@@ -1426,6 +1439,9 @@ func (r *runner) exec(o Op) {
 			r.report(lib.Violation{Sig: "blocked-store-wrote-to-the-log",
 				What:   fmt.Sprintf("%s on a store whose writer is blocked (a reported-failed batch is still on disk) appended a record", o.K),
 				Replay: r.replay(nil)})
+		}
+		if !wasClosed && !r.failed && r.real.knownBatches() == preKnown+1 {
+			r.compareBatchBytes(o, mPending, mSeq, preEnds)
 		}
 		straddle := false
 		for _, fdesc := range postDisk.Files {
@@ -1508,6 +1524,51 @@ func (r *runner) exec(o Op) {
 	r.compareState(o.String())
 	if every || r.rng.Intn(10) == 0 {
 		r.snapshot()
+	}
+}
+
+// compareBatchBytes: the one record the flush appended, de-chunked, against `Batch.encodeBatch` of the
+// model's pending records and sequence number.
+func (r *runner) compareBatchBytes(o Op, mPending, mSeq string, preEnds map[uint64]int) {
+	var fr *fileRec
+	n := 0
+	for num, f := range r.real.files {
+		pe, ok := preEnds[num]
+		if !ok {
+			pe = 1
+		}
+		if f.cur && len(f.ends) == pe+1 {
+			fr = f
+			n++
+		}
+	}
+	if n != 1 {
+		r.res.Hit("batch-bytes:record-not-located")
+		return
+	}
+	start, end := fr.ends[len(fr.ends)-2], fr.ends[len(fr.ends)-1]
+	if end > len(fr.bytes) {
+		r.res.Hit("batch-bytes:record-not-located")
+		return
+	}
+	got, _, err := dechunk(fr.bytes[:end], 0, start)
+	if err != nil {
+		r.res.Fatalf("%s step %d: de-chunking the appended record: %v", r.name, len(r.log), err)
+		return
+	}
+	text, nrec, perr := pendingToText(mPending)
+	if perr != nil || nrec == 0 {
+		r.mismatch("batch-bytes:model-had-nothing-pending", o.String(), mPending, hex.EncodeToString(got))
+		return
+	}
+	want := r.ask("encbatch " + mSeq + text)
+	r.res.Compared(1)
+	r.res.Hit("batch-bytes:compared")
+	if end/blockSize != start/blockSize {
+		r.res.Hit("batch-bytes:multi-block")
+	}
+	if hex.EncodeToString(got) != want {
+		r.mismatch("batch-bytes", o.String(), clip(want), clip(hex.EncodeToString(got)))
 	}
 }
 
@@ -1830,6 +1891,10 @@ func main() {
 		t1 := time.Now()
 		_ = os.MkdirAll(runRoot, 0o755)
 		runCodec(f, res, *shardFlag, *shardsFlag, runRoot)
+		t2 := time.Now()
+		runBatch(f, res, *shardFlag, *shardsFlag, runRoot)
+		runRotateNoRepair(f, res, *shardFlag, *shardsFlag, runRoot)
+		res.Note("shard %d/%d: batch-layer / watermark-file section in %.1fs", *shardFlag, *shardsFlag, time.Since(t2).Seconds())
 		if *shardFlag == 0 {
 			runGlue(res, runRoot)
 			runAlias(res, runRoot)
@@ -1946,6 +2011,7 @@ func replayFile(f lib.Flags, res *lib.Result) {
 		ff := f
 		ff.Tier = "thorough"
 		runCodec(ff, res, 0, 1, root)
+		runBatch(ff, res, 0, 1, root)
 		return
 	}
 	serial := false
